@@ -197,7 +197,12 @@ TUninit == /\ Is("Uninit") /\ Step
 MainPathEv == {"OpIn", "Cli", "OpOut", "Worked", "Halt", "OutDone", "InRm", "Sti", "StiDone", "InDone", "Exit", "Cleanup", "Terminate", "BailoutMain", "BailoutSub"}
 TMainPath == l <= Len(TraceLog) /\ Ev.e \in MainPathEv /\ Step /\ UNCHANGED dvars /\ Keep
 
-Next == \/ TMainPath \/ TReset \/ TStart \/ TInit \/ TSrcTake \/ TSrcRel \/ TAvail \/ TEof
+\* the capacities the code allocated for its deques are the ones the model's capacity invariants assume
+TQueueCaps == /\ Is("QueueCaps") /\ Step
+              /\ Must(("output_q" \in DOMAIN Ev) => Ev.output_q = cfg.TotOut, "output_q holds TotOut entries")
+              /\ UNCHANGED dvars /\ Keep
+
+Next == \/ TQueueCaps \/ TMainPath \/ TReset \/ TStart \/ TInit \/ TSrcTake \/ TSrcRel \/ TAvail \/ TEof
         \/ TWStart \/ TWWait \/ TWWake \/ TWExit
         \/ TCollectBegin \/ TCollectRequeue \/ TCollectEnd
         \/ TSeqBegin \/ TSeqRequeue \/ TSeqPark \/ TSeqToken \/ TSeqEnd
